@@ -231,11 +231,15 @@ CLAIMED = {
         "entries_balanced (nothing left sounding, nothing stopped that was not started, no re-trigger), slept_entries (the "
         "sleeps, entry by entry); playBars_sync / playTracks_spec / playComposition_spec (whatever the parallel scheduler does, "
         "observers = hooks; one instrument announcement per track on its channel first, program = GM name index, else the "
-        "instrument's number, else 1); attach_idem, detach_not_listening, cc_guard. parallel_counterexample: halves against "
+        "instrument's number, else 1); attach_idem, detach_not_listening, cc_guard. playBars_equal_rhythm (C18Par.lean: for ANY "
+        "number of voices whose bars share one rhythm - same places and values entry by entry - and fill their meter exactly "
+        "in the scheduler's own double arithmetic, the trace of play_Bars is, step by step, every voice's entry started in "
+        "voice order, ONE sleep of the common value, those entries stopped; via startDue_all, settle_all, bump_all, "
+        "loop_equal_rhythm; kernel example with two voices in 3/4). parallel_counterexample: halves against "
         "quarters re-trigger (kernel) = known finding C18-parallel-scheduler. Tie A: every statement of Sequencer, "
         "SequencerObserver.notify, GM names.",
-   note=TRUST + "Partial: that play_Bars is balanced and correctly timed on equal rhythms is decided by the correspondence and the "
-        "oracle, not proved; sleeps are IEEE doubles 60/bpm*4/value, compared with 240/(bpm*value) by the oracle to 1e-9. Known "
+   note=TRUST + "Partial: the equal-rhythm theorem is for play_Bars (one group of simultaneous bars); its lift through "
+        "play_Tracks' bar-index loop is by the correspondence and the oracle; sleeps are IEEE doubles 60/bpm*4/value, compared with 240/(bpm*value) by the oracle to 1e-9. Known "
         "finding C18-parallel-scheduler (matcher: a parallel call outside the equal-rhythm/exact-fill domain); one defect "
         "repaired by a fix: commit (306af39).",
    design="§4 C18"),
@@ -247,12 +251,18 @@ CLAIMED = {
         "ANY bar, with the divisions the exporter computes, every note element's duration / divisions is exactly the entry's "
         "length in quarter notes - lcm divisibility over Q) with dvd_lcmList; entry_notes_spec (one note element per note or "
         "rest; children in order: pitch|rest, chord flag exactly on chord notes after the first, duration, one dot per dot, "
-        "type, time-modification); part_ids_match (part ids = part-list ids, in order, for any composition). Whole tables in "
+        "type, time-modification); part_ids_match (part ids = part-list ids, in order, for any composition). "
+        "readEntry_dotted / readEntry_tuplet (C19Entry.lean: an independent reader recovers from ANY entry text - rest, note, "
+        "chord of any size - the pitches, the base value and the dots, for the whole vocabulary); readBody_lyEntries / "
+        "lyBar_reads (C19Bar.lean: a bar of ANY number of such entries in any order - so any pattern of tuplet blocks opening, "
+        "continuing and closing - reads back as exactly the list of (pitches, base value, dots, tuplet ratio in force); the "
+        "tokenizer keeps <...> together; kernel example). Whole tables in "
         "the kernel: duration_table (10 base values longa..128th x 0-2 dots as the doubles dots() yields, and 8 x 3 tuplets: "
         "suffix text and ratio), key_table / key_mode_table (30 keys). Tie A: every statement of lilypond.py and musicxml.py, "
         "type names, longa/breve, clef text.",
-   note=TRUST + "Partial: bar/track/composition LilyPond text structure (braces, \\times blocks, \\time, header) is not "
-        "parsed by a Lean reader; it is tied by the character-exact correspondence and decoded per generated program by the "
+   note=TRUST + "Partial: the Lean bar reader covers bars written without the \\key / \\time prefix (those prefixes are covered "
+        "separately by key_table and track_shows_changes); track/composition nesting and the header are not parsed by a Lean "
+        "reader; they are tied by the character-exact correspondence and decoded per generated program by the "
         "independent Python reader. XML text-level well-formedness and escaping are minidom's, validated per document by expat "
         "(not provable here). Titles containing a double quote are outside the LilyPond domain (the header is not escaped). "
         "Two defects repaired by fix: commits (14be814, deaaf2d).",
@@ -268,11 +278,18 @@ CLAIMED = {
         "findFingering_sorted (ordered by total fret number); getTuning_sound / getTunings_sound / countOk_spec (only "
         "tunings satisfying every constraint, for ANY registry); fromNote_equal_lengths (equal string lines for any fitting "
         "single-string tuning, note, width) with beginTrack_lengths and centred_length; registered_labels_fit (whole registry, "
-        "kernel). Tie A: the add_tuning calls = the model's table, every statement of tunings.py and tablature.py, the "
+        "kernel); fromBar_equal_lengths (equal string lines for ANY bar and width); chord_sound + chord_span (C20Chord.lean: "
+        "every fingering find_chord_fingering returns has one entry per string, every fretted entry lies within 0..maxfret and "
+        "sounds a pitch class of the chord, every chord name is covered, at most max_fingers fingers, non-open frets less than "
+        "max_distance apart - via follow_spec, makeTable_good, findNoteNames_spec); fromBar_decode + decodes_spec "
+        "(C20Decode.lean: the string lines of a rendered bar are label columns, then one cell per entry, then closing dashes; "
+        "reading the digits of entry k's cells gives fret fr on string s EXACTLY when entry k's fingering assigns (s, fr); that "
+        "fingering has one distinct string per note in order, each sounding its note; a rest reads as nothing; kernel "
+        "examples). Tie A: the add_tuning calls = the model's table, every statement of tunings.py and tablature.py, the "
         "default tuning.",
-   note=TRUST + "Partial: soundness of find_chord_fingering (pitch classes, coverage, span, one entry per string) and the "
-        "column-by-column decodability of bar/track/composition tablature are decided by the correspondence and the independent "
-        "oracle (brute-force fingering specification, ASCII decoder), not proved; chord fingerings and tablature are only "
+   note=TRUST + "Partial: decodability is proved for from_Bar (cells per entry); for from_NoteContainer, from_Track's gluing of "
+        "bars into lines and from_Composition's headers it is decided by the correspondence and the independent ASCII decoder, "
+        "not proved; chord fingerings and tablature are only "
         "exercised on tunings without courses (find_note_names and begin_track cannot handle a course). Two defects repaired by "
         "fix: commits (2c9d6fc, 84be0a7).",
    design="§4 C20"),
